@@ -8,7 +8,7 @@ from ..ref import P, L, to32, le
 
 REQUIRED = ['S>=l', 'S+l', 'smallA:accept', 'smallA:reject', 'smallR', 'mixedA', 'cofactored-only', 'noncanon-R', 'noncanon-A',
             'badkey', 'honest', 'prehash', 'legacy:S-range', 'validationvectors', 'R-undecodable', 'malleable-derived', 'sk-wrapper',
-            'key-ctor:from_bytes', 'key-ctor:try_from-slice', 'key-ctor:bincode', 'key-ctor:json', 'is_weak:small-order', 'is_weak:not', 'key-bytes-kept', 'passthrough-digest', 'key-ctor:from-point', 'key-ctor:default', 'key-ctor:from-esk', 'ctor-view', 'S-high-canonical']
+            'key-ctor:from_bytes', 'key-ctor:try_from-slice', 'key-ctor:bincode', 'key-ctor:json', 'is_weak:small-order', 'is_weak:not', 'key-bytes-kept', 'passthrough-digest', 'key-ctor:from-point', 'key-ctor:default', 'key-ctor:from-esk', 'ctor-view', 'S-high-canonical', 'ph-ctx:none']
 
 
 def okerr(x):
@@ -65,12 +65,17 @@ def add_verify(ctx, A, msg, sig, cls, ph_ctx=None):
         op, args = 'sig.verify', (Ahex, hx(msg), sig.hex())
     else:
         ph = vals.sha512(msg)
+        # the context may be absent (None) or present and empty: the same dom2 prefix, two different call shapes
+        ctx_tok = None
+        if ph_ctx == b'' and ctx.rng.random() < 0.5:
+            ctx_tok = '~'
+            cls = cls + ['ph-ctx:none']
         c = ph_ctx
         e = ref.ed_verify_predicate(A, None, sig, ph=ph, ctx=c)
         es = ref.ed_verify_predicate(A, None, sig, strict=True, ph=ph, ctx=c)
         el = ref.ed_verify_predicate(A, None, sig, ph=ph, ctx=c, legacy=True)
         els = ref.ed_verify_predicate(A, None, sig, strict=True, ph=ph, ctx=c, legacy=True)
-        op, args = 'sig.verifyph', (Ahex, hx(msg), hx(c), sig.hex())
+        op, args = 'sig.verifyph', (Ahex, hx(msg), ctx_tok or hx(c), sig.hex())
         cls = cls + ['prehash']
     cls = cls + (['accepted'] if e else ['rejected'])
     if (e, es) == (el, els):
@@ -248,7 +253,7 @@ def ctor_views(ctx, n):
         weak = ref.aff_mul(8, Am) == ref.IDENT
         mont = to32(ref.ed_to_mont(Am)).hex()
         for how in ('', 't', 'n', 'j', 'p') + (('q',) if Ab == IDENT_ENC else ()):
-            ctx.add('sig.vk_ctor', how + Ab.hex(), expect=['ok', Ab.hex(), B(weak), mont, 'T', Ab.hex(), Ab.hex()],
+            ctx.add('sig.vk_ctor', how + Ab.hex(), expect=['ok', Ab.hex(), B(weak), mont, 'T', Ab.hex(), Ab.hex(), Ab.hex(), Ab.hex()],
                     cls=[KEY_CTORS[how], 'ctor-view'] + (['is_weak:small-order'] if weak else []))
     for k in (0,):
         esk = to32(k) + vals.rb(rng, 32)          # ExpandedSecretKey { scalar: 0, .. } (public fields)
